@@ -32,6 +32,8 @@ UNPROVED = [
     "range of n_ij; that this range is the whole support (weights sum to 1) is not stated as a theorem",
 ]
 SUITES, _classifiers = SU.load_all()
+from suites import fixtures as _FX  # noqa: E402
+RULE += "; " + _FX.RULE_NOTE
 CHECKERS, ORACLES = _relational.make(R.check_range, self_inputs=False)
 _xc, _xo = _relational.extra(PID)
 CHECKERS.update(_xc)
